@@ -37,19 +37,6 @@ theorem alpNumPrefix_fuel : ∀ (n m : Nat) (s : List Char), s.length < n → s.
 theorem findSufs_cons_ne (n : Nat) (c : Char) (r : List Char) (h : c ≠ '_') :
     findSufs (n + 1) (c :: r) = findSufs n r := by
   simp only [findSufs]
-  split
-  · rename_i heq; exact absurd heq (by simp)
-  · rename_i r' heq; injection heq with e _; exact absurd e h
-  · rename_i c' r' _ heq; injection heq with _ e; rw [e]
-
-theorem findSufs_cons_us (n : Nat) (r : List Char) :
-    findSufs (n + 1) ('_' :: r) =
-      match sufNames.find? (fun nm => hasPrefix nm r) with
-      | some nm =>
-        ('_' :: nm ++ (r.drop nm.length).takeWhile isDigit, nm, (r.drop nm.length).takeWhile isDigit) ::
-          findSufs n ((r.drop nm.length).drop ((r.drop nm.length).takeWhile isDigit).length)
-      | none => findSufs n r := by
-  simp only [findSufs]
 
 theorem findSufs_fuel : ∀ (n m : Nat) (s : List Char), s.length < n → s.length < m →
     findSufs n s = findSufs m s := by
@@ -66,13 +53,14 @@ theorem findSufs_fuel : ∀ (n m : Nat) (s : List Char), s.length < n → s.leng
         simp only [List.length_cons] at hn hm
         by_cases hc : c = '_'
         · subst hc
-          rw [findSufs_cons_us, findSufs_cons_us]
-          split
-          · rename_i nm _
+          simp only [findSufs]
+          cases hf : List.find? (fun nm => hasPrefix nm r) sufNames with
+          | none => exact ih m r (by omega) (by omega)
+          | some nm =>
+            simp only
             have h1 : ((r.drop nm.length).drop ((r.drop nm.length).takeWhile isDigit).length).length ≤ r.length := by
               simp only [List.length_drop]; omega
             rw [ih m _ (by omega) (by omega)]
-          · exact ih m r (by omega) (by omega)
         · rw [findSufs_cons_ne n c r hc, findSufs_cons_ne m c r hc]
           exact ih m r (by omega) (by omega)
 
